@@ -96,7 +96,7 @@ CLAIMED = {
         "DESIGN.md 2/C09"),
     "C11": (
         "42 cyclic types: every element x 23 step counts (0, +-1, +-2, +-(size-1), +-size, +-(size+1), +-(2size+1), +-1000003) x all ordered pairs (pair law next(a).next(b) = next(a+b)), from_index over -2size..3size, from_name of every published name (least index for repeated names), and every name of every other cycle plus near misses must be refused. Linear units (solar year/half/season/month, lunar year, sexagenary year/month incl. year -1, Julian day, solar/lunar/sexagenary day, solar time, sexagenary hour, lunar hour in 2 h steps): ordinal models, all values for the cheap units (quick: thinned), boundary lattices for day/instant units, all step pairs from per-unit alphabets with results kept in range. Step counts now 23 (incl. beyond 2^31, 2^32, 2^40); recombined names refused; further units: multi-decade lunar-month steps, raw out-of-range indices of SolarTerm / SixtyCycleMonth::from_index, LunarWeek / SolarWeek on 10 lunar / 4 civil years.",
-        "Lunar months, terms, weeks and festivals are stepped exhaustively in C03, C06, C14, C20; name contents are judged by C19. Fixed: SixtyCycleMonth year carry.",
+        "Lunar months, terms, weeks and festivals are stepped exhaustively in C03, C06, C14, C20; name contents are judged by C19. Fixed: SixtyCycleMonth year carry. Elements taken out of SixtyCycleMonth::get_days() are stepped by 0, +-1, 7, -30 and compared with the sexagenary day built afresh from the civil date.",
         "exhaustive enumeration of cycle elements x step-count pairs against Z/size; ordinal-model conformance for linear units",
         "DESIGN.md 2/C11"),
     "C12": (
